@@ -1,8 +1,7 @@
 use std::{collections::BTreeMap, fmt, iter};
 
-use bit_vec::BitVec;
 use enumflags2::BitFlags;
-use bytes::BytesMut;
+use bytes::{Bytes, BytesMut};
 #[allow(unused_imports)]
 use log::{debug, error, info, trace, warn};
 
@@ -21,9 +20,14 @@ use crate::{
 
 // This is for the assembly of a single object
 struct AssemblyBuffer {
-  buffer_bytes: BytesMut,
+  data_size: usize,
+  fragment_size: usize,
   fragment_count: usize,
-  received_bitmap: BitVec,
+  // The fragments received so far, by fragment index starting from 0. They are
+  // put together only when all of them are there, so the memory in use is in
+  // proportion to what has actually been received, whatever size the sample
+  // claims to have.
+  fragments: BTreeMap<usize, Bytes>,
 
   #[allow(dead_code)] // TODO: Purpose is to use this later for e.g.
   // garbage collection, in case some buffer is not completed within reasonable time.
@@ -33,121 +37,118 @@ struct AssemblyBuffer {
 
 impl AssemblyBuffer {
   pub fn new(datafrag: &DataFrag) -> Self {
-    let data_size: usize = datafrag.data_size.try_into().unwrap();
-    // We have unwrap here, but it will succeed as long as usize >= u32.
-    let fragment_size: u16 = datafrag.fragment_size;
+    // The DataFrag deserializer validates that 1 <= fragment_size <= data_size
+    // Note: Technically RTPS spec allows fragment_size == 0.
+    let data_size = datafrag.data_size as usize;
+    let fragment_size = usize::from(datafrag.fragment_size);
     debug!(
       "new AssemblyBuffer data_size={} frag_size={}",
       data_size, fragment_size
     );
-
-    assert!(fragment_size as usize <= data_size); // This is validated at DataFrag deserializer
-    assert!(fragment_size > 0); // This is validated at DataFrag deserializer
-                                // Note: Technically RTPS spec allows fragment_size == 0.
-
-    let mut buffer_bytes = BytesMut::with_capacity(data_size);
-    buffer_bytes.resize(data_size, 0); // TODO: Can we replace this with faster (and unsafer) .set_len and live with
-                                       // uninitialized data?
-
-    let fragment_count = usize::from(datafrag.total_number_of_fragments());
-
     let now = Timestamp::now();
 
     Self {
-      buffer_bytes,
-      fragment_count,
-      received_bitmap: BitVec::from_elem(fragment_count, false),
+      data_size,
+      fragment_size,
+      fragment_count: u32::from(datafrag.total_number_of_fragments()) as usize,
+      fragments: BTreeMap::new(),
       created_time: now,
       modified_time: now,
     }
   }
 
-  pub fn insert_frags(&mut self, datafrag: &DataFrag, frag_size: u16) {
-    // TODO: Sanity checks? E.g. datafrag.fragment_size == frag_size
-    // Or is this even guaranteed? Can Writer vary fragment size?
-
-    let frag_size = usize::from(frag_size); // - payload_header;
-    let frags_in_submessage = usize::from(datafrag.fragments_in_submessage);
-    let fragment_starting_num: usize = u32::from(datafrag.fragment_starting_num)
-      .try_into()
-      .unwrap();
-    let start_frag_from_0 = fragment_starting_num - 1; // number of first fragment in this DataFrag, indexing from 0
-
+  pub fn insert_frags(&mut self, datafrag: &DataFrag) {
     debug!(
-      "insert_frags: datafrag.writer_sn = {:?}, frag_size = {:?}, datafrag.fragment_size = {:?}, \
+      "insert_frags: datafrag.writer_sn = {:?}, datafrag.fragment_size = {:?}, \
        datafrag.fragment_starting_num = {:?}, datafrag.fragments_in_submessage = {:?}, \
        datafrag.data_size = {:?}",
       datafrag.writer_sn,
-      frag_size,
       datafrag.fragment_size,
       datafrag.fragment_starting_num,
       datafrag.fragments_in_submessage,
       datafrag.data_size
     );
 
-    // unwrap: u32 should fit into usize
-    let from_byte = start_frag_from_0 * frag_size;
-
-    // Last fragment might be smaller than fragment size
-    // Copy reported number of fragments, or as much data as there is, whichever
-    // ends first.
-    // And clamp to assembly buffer length to avoid buffer overrun.
-    let to_before_byte = std::cmp::min(
-      from_byte
-        + std::cmp::min(
-          frags_in_submessage * frag_size,
-          datafrag.serialized_payload.len(),
-        ),
-      self.buffer_bytes.len(),
-    );
-    let payload_size = to_before_byte - from_byte;
-
-    // sanity check data size
-    // Last fragment may be smaller than frags_in_submessage * frag_size
-    let last_frag_in_submessage = start_frag_from_0 + frags_in_submessage;
-    if last_frag_in_submessage < self.fragment_count
-      && datafrag.serialized_payload.len() < frags_in_submessage * frag_size
+    // All the DataFrags of a sample must agree about its size and about the size
+    // of its fragments.
+    if datafrag.data_size as usize != self.data_size
+      || usize::from(datafrag.fragment_size) != self.fragment_size
+      || self.fragment_size == 0
     {
-      error!(
-        "Received DATAFRAG too small. fragment_starting_num={} out of fragment_count={}, \
-         frags_in_submessage={}, frag_size={} but payload length = {}. Original data_size={}",
-        fragment_starting_num,
-        self.fragment_count,
-        frags_in_submessage,
-        frag_size,
-        datafrag.serialized_payload.len(),
+      warn!(
+        "DATAFRAG {:?} says data_size={} fragment_size={}, but the sample was started with \
+         data_size={} fragment_size={}. Discarding the fragments.",
+        datafrag.writer_sn,
         datafrag.data_size,
+        datafrag.fragment_size,
+        self.data_size,
+        self.fragment_size
       );
+      return;
     }
 
-    debug!(
-      "insert_frags: from_byte = {:?}, to_before_byte = {:?}",
-      from_byte, to_before_byte
-    );
+    // number of first fragment in this DataFrag, indexing from 0
+    let start_frag_from_0 = match (u32::from(datafrag.fragment_starting_num) as usize).checked_sub(1)
+    {
+      Some(s) => s,
+      None => return, // Fragment numbering starts from 1.
+    };
+    let payload = &datafrag.serialized_payload;
 
-    debug!(
-      "insert_frags: dataFrag.serializedPayload.len = {:?}",
-      datafrag.serialized_payload.len()
-    );
-
-    self.buffer_bytes.as_mut()[from_byte..to_before_byte]
-      .copy_from_slice(&datafrag.serialized_payload[..payload_size]);
-
-    for f in 0..frags_in_submessage {
-      self.received_bitmap.set(start_frag_from_0 + f, true);
+    for f in 0..usize::from(datafrag.fragments_in_submessage) {
+      let frag_index = start_frag_from_0 + f;
+      if frag_index >= self.fragment_count {
+        warn!(
+          "DATAFRAG {:?} carries fragments beyond the last fragment {} of the sample.",
+          datafrag.writer_sn, self.fragment_count
+        );
+        break;
+      }
+      // The last fragment may be smaller than the others
+      let frag_len = std::cmp::min(
+        self.fragment_size,
+        self.data_size - frag_index * self.fragment_size,
+      );
+      let from_byte = f * self.fragment_size;
+      if payload.len() < from_byte + frag_len {
+        error!(
+          "Received DATAFRAG too small. fragment_starting_num={:?} out of fragment_count={}, \
+           frags_in_submessage={}, frag_size={} but payload length = {}. Original data_size={}",
+          datafrag.fragment_starting_num,
+          self.fragment_count,
+          datafrag.fragments_in_submessage,
+          self.fragment_size,
+          payload.len(),
+          datafrag.data_size,
+        );
+        break;
+      }
+      // Copy, so that we do not hold on to the receive buffer.
+      self
+        .fragments
+        .entry(frag_index)
+        .or_insert_with(|| Bytes::copy_from_slice(&payload[from_byte..from_byte + frag_len]));
     }
     self.modified_time = Timestamp::now();
   }
 
   pub fn is_complete(&self) -> bool {
-    self.received_bitmap.all() // return if all are received
+    self.fragments.len() == self.fragment_count
+  }
+
+  // Call only when complete.
+  fn assemble(self) -> Bytes {
+    let mut buffer_bytes = BytesMut::with_capacity(self.data_size);
+    for fragment in self.fragments.values() {
+      buffer_bytes.extend_from_slice(fragment);
+    }
+    buffer_bytes.freeze()
   }
 }
 
 // Assembles fragments from a single (remote) Writer
 // So there is only one sequence of SNs
 pub(crate) struct FragmentAssembler {
-  fragment_size: u16, // number of bytes per fragment. Each writer must select one constant value.
   assembly_buffers: BTreeMap<SequenceNumber, AssemblyBuffer>,
 }
 
@@ -160,10 +161,11 @@ impl fmt::Debug for FragmentAssembler {
 }
 
 impl FragmentAssembler {
+  // The fragment size is a property of each sample: every AssemblyBuffer takes
+  // it from the DataFrag that starts the sample.
   pub fn new(fragment_size: u16) -> Self {
     debug!("new FragmentAssembler. frag_size = {}", fragment_size);
     Self {
-      fragment_size,
       assembly_buffers: BTreeMap::new(),
     }
   }
@@ -175,21 +177,20 @@ impl FragmentAssembler {
     flags: BitFlags<DATAFRAG_Flags>,
   ) -> Option<DDSData> {
     let writer_sn = datafrag.writer_sn;
-    let frag_size = self.fragment_size;
 
     let assembly_buffer = self
       .assembly_buffers
       .entry(datafrag.writer_sn)
       .or_insert_with(|| AssemblyBuffer::new(datafrag));
 
-    assembly_buffer.insert_frags(datafrag, frag_size);
+    assembly_buffer.insert_frags(datafrag);
 
     if assembly_buffer.is_complete() {
       debug!("new_datafrag: COMPLETED FRAGMENT");
       if let Some(assembly_buffer) = self.assembly_buffers.remove(&writer_sn) {
         // Return what we have assembled.
         let serialized_data_or_key =
-          SerializedPayload::from_bytes(&assembly_buffer.buffer_bytes.freeze()).map_or_else(
+          SerializedPayload::from_bytes(&assembly_buffer.assemble()).map_or_else(
             |e| {
               error!("Deserializing SerializedPayload from DATAFRAG: {:?}", &e);
               None
@@ -244,7 +245,7 @@ impl FragmentAssembler {
       None => Box::new(iter::empty()),
       Some(ab) => {
         let iter = (0..ab.fragment_count)
-          .filter(move |f| !ab.received_bitmap.get(*f).unwrap_or(true))
+          .filter(move |f| !ab.fragments.contains_key(f))
           .map(|f| FragmentNumber::new((f + 1).try_into().unwrap()));
         Box::new(iter)
       }
